@@ -101,6 +101,9 @@ func (x *Exec) atLoopHeader(st *State, lp *loop, from *ssa.BasicBlock) bool {
 		override[ph] = x.freshVal(st, ph.Type(), "loop."+ph.Comment)
 	}
 	x.assignPhis(st, from, lp.header, override)
+	w := x.freshInt("alloc")
+	st.assume(le(st.alloc, w))
+	st.alloc = w
 	mods, all := x.loopMods(st, fr, lp)
 	if all {
 		st.H = Heap{M: map[string]string{}, Epoch: x.P.nextEpoch()}
@@ -114,9 +117,6 @@ func (x *Exec) atLoopHeader(st *State, lp *loop, from *ssa.BasicBlock) bool {
 			x.havocKey(st, k)
 		}
 	}
-	w := x.freshInt("alloc")
-	st.assume(le(st.alloc, w))
-	st.alloc = w
 	for _, b := range sortedBlocks(lp.blocks) {
 		for _, in := range b.Instrs {
 			if nx, ok := in.(*ssa.Next); ok {
